@@ -1,0 +1,20 @@
+//go:build verif
+
+// Contracts for package testing/fake/gnmi, checked by /verif/gvc (comment-only file,
+// compiled only under the build tag "verif").
+package gnmi
+
+// reset builds the update queue from the configured values and, unless disabled, files
+// the sync marker at the latest initial timestamp of the configuration, to be emitted
+// once: the queue appends it to the END of that timestamp's bucket (queue.addValue:
+// joins-at-the-end-of-its-bucket), so it follows the first emission of every value.
+//@ func (*Client).reset
+//@   props C20 C12
+//@   requires c != nil && c.config != nil && (c.config.Generator != nil ==> payload(c.config.Generator) != nil)
+//@   requires forall i int :: 0 <= i && i < len(c.config.Values) ==> FakeMsgWf(c.config.Values[i]) && allocated(c.config.Values[i].Timestamp)
+//@   modifies *
+//@   assert at call (*UpdateQueue).Add#0: [sync-filed-at-the-latest-initial-timestamp-once C20] arg1 != nil && arg1.Timestamp != nil && arg1.Timestamp.Timestamp == q.latest
+//@     && arg1.Repeat == 1 && isa(arg1.Value.(*fpb.Value_Sync))
+//@ func (*Client).setQueue
+//@   trusted
+//@   note body not verified (stores the queue under the client's lock)
